@@ -55,6 +55,20 @@ def cases(tier, seed, phase):
                         if all(c != '250' for c in tup):
                             dev['data'] = '503' if eod == '250' else '554'      # what real servers say to DATA without a valid recipient
                         yield {'kind': 'smtp', 'lmtp': lmtp, 'pipelining': pipelining, 'nr': nr, 'dev': dev}
+    # a failure somewhere in the transaction AND a peer that mishandles the RSET that follows it: what each recipient was told stands,
+    # whatever becomes of the RSET (LMTP: the per-recipient end-of-data verdicts; SMTP: the refusals)
+    for lmtp in (False, True):
+        for pipelining in (True, False):
+            for first in ({'eod': '550'}, {'eod': '450'}, {'eod1': '550'}, {'eod': '550', 'eod1': '450'}, {'rcpt0': '550'}, {'rcpt1': '450'}, {'mail': '550'},
+                          {'rcpt0': '550', 'eod': '450'}):
+                if 'eod1' in first and not lmtp:
+                    continue
+                for oc in ('close', 'stall', 'bad', '450'):
+                    if oc == 'stall' and tier == 'quick' and not (lmtp and pipelining):
+                        continue
+                    dev = dict(first)
+                    dev['rset'] = oc
+                    yield {'kind': 'smtp', 'lmtp': lmtp, 'pipelining': pipelining, 'nr': 3 if lmtp else 2, 'dev': dev}
     # the same recipient listed twice (positions 0 and 1 carry one address; the peer answers both alike)
     for lmtp in (False, True):
         for pipelining in (True, False):
@@ -461,6 +475,13 @@ def smtp_monitor(case, dev, res):
             decisive = [v for k, v in dev.items() if v[:1] == '5' and k in ('banner', 'mail', 'data', 'eod', 'auth')]
             if decisive and not case['lmtp'] and all(v[:1] in '235' for v in dev.values()) and dev.get('ehlo', '250') != '500':
                 hits.append(hit('c11.5xx-not-permanent.smtp', 'a 5xx outcome for the whole message is reported as transient', observed=res, expected=dev))
+            # whatever becomes of the RSET that follows a failed transaction, the verdicts given before it stand: when every reply up to
+            # and including those to the message data was a well-formed 2xx / 3xx / 5xx, nobody was told "try later"
+            before_rset = dict((k, v) for k, v in dev.items() if k != 'rset')
+            if 'rset' in dev and not case.get('connect') and all(v.isdigit() and v[:1] in '235' and v != '000' for v in before_rset.values()) \
+                    and dev.get('ehlo', '250') != '500':
+                hits.append(hit('c11.transient-although-nobody-said-4xx.smtp', 'every reply up to the end of the message data was 2xx / 3xx / 5xx, the RSET after the '
+                                'failed transaction went wrong, and the whole message is reported as a transient failure', observed=res, expected=dev))
     return hits
 
 
